@@ -83,7 +83,7 @@ def walk_no_nested(root):
             continue
         first = False
         yield node
-        stack.extend(ast.iter_child_nodes(node))
+        stack.extend(reversed(list(ast.iter_child_nodes(node))))
 
 
 def stmt_nodes(cfg, pred):
